@@ -12,7 +12,7 @@ SHARD = 120
 RULE = ("splines: 2-8 strictly increasing knots (integers, dyadic and decimal fractions), queried at EVERY knot, both end points, "
         "midpoints and just outside, orders 0/1, both extrapolate flags, int and float queries; polynomials: 0-5 terms, exponents "
         "0..5 on integer raws (float raws with exponents <= 1); fields with 0-3 context calibrators (criteria on other parameters "
-        "or the own raw value) and optional default; enumerations with listed/unlisted raws; booleans over int/float raws; "
+        "or the own raw value) and optional default, 30% of them with the type loaded through the XML reader; enumerations with listed/unlisted raws; booleans over int/float raws; "
         "distinct = distinct (kind, calibrator shape, query class, selection outcome)")
 ASSUMPTIONS = ["float ** n with n >= 2 on float raws (libm pow) is outside the model and not generated",
                "results compared as IEEE bit patterns"]
@@ -103,7 +103,14 @@ def field_cases(rng, tier):
         off = rng.randrange(0, 8)
         nbytes = (off + size + 7) // 8
         buf = (raw & ((1 << size) - 1)) << (nbytes * 8 - off - size)
-        cases.append({"kind": "field", "env": env, "data": buf.to_bytes(nbytes, "big").hex(), "pos": off, "type": t})
+        case = {"kind": "field", "env": env, "data": buf.to_bytes(nbytes, "big").hex(), "pos": off, "type": t}
+        if rng.random() < 0.3:
+            # the same field with its type obtained through the XML reader (Term lists with repeated exponents, spline points in
+            # document order, ...): what the loader makes of the constants (coefficients and points become floats) is in the case
+            import xmlgen
+            case["type"] = xmlgen.to_xml_loadable({"params": {"T": {"type": t}}})["params"]["T"]["type"]
+            case["via"] = "xml"
+        cases.append(case)
     return cases
 
 
